@@ -93,7 +93,7 @@ theorem exceptions_enumerated (M : ModelId) (m c v : Nat) :
     its CPU passes the guard of every handler, where the verdict is `handled`. -/
 theorem permissive_guard (M : ModelId) (m c v : Nat) :
     handledIn permissive M m c v = handled M m c v := by
-  cases M <;> simp [handledIn, stateGuard, permissive]
+  simp [handledIn, stateGuard, stateGuardOf, permissive]
 
 /-! ## The declarations -/
 
